@@ -70,6 +70,7 @@ type programL struct {
 	TTL       time.Duration // explicit beresp.ttl set in vcl_fetch
 	Cacheable bool
 	RateDelta int  // >0: recv increments a rate counter by this much
+	RateForm  int  // how: 0 ratecounter_increment, 1 check_rate, 2 check_rates as its second counter (the first one trips), 3 check_rates as its first counter
 	Penalty   bool // recv adds the client to a penalty box when X-Punish is set
 	HashVary  bool // vcl_hash adds the X-V request header to the hash
 }
@@ -91,7 +92,7 @@ func stmtFor(action string) string {
 func (p *programL) render() string {
 	var b strings.Builder
 	b.WriteString("backend F_origin {\n  .host = \"origin.test\";\n  .port = \"80\";\n  .first_byte_timeout = 5s;\n  .connect_timeout = 1s;\n  .between_bytes_timeout = 2s;\n}\n")
-	b.WriteString("ratecounter rc_a {}\npenaltybox pb_a {}\n")
+	b.WriteString("ratecounter rc_a {}\nratecounter rc_b {}\npenaltybox pb_a {}\npenaltybox pb_b {}\n")
 	for _, s := range scopes {
 		fmt.Fprintf(&b, "sub vcl_%s {\n", s)
 		fmt.Fprintf(&b, "  log \"%s:\" req.restarts;\n", s)
@@ -100,7 +101,18 @@ func (p *programL) render() string {
 			b.WriteString("  set req.backend = F_origin;\n")
 			if p.RateDelta > 0 {
 				b.WriteString("  declare local var.n INTEGER;\n")
-				fmt.Fprintf(&b, "  if (req.restarts == 0) {\n    set var.n = ratelimit.ratecounter_increment(rc_a, req.http.X-Client, %d);\n  }\n", p.RateDelta)
+				// every form increments rc_a by RateDelta for this client, once per request
+				b.WriteString("  declare local var.lim BOOL;\n")
+				switch p.RateForm {
+				case 1:
+					fmt.Fprintf(&b, "  if (req.restarts == 0) {\n    set var.lim = ratelimit.check_rate(req.http.X-Client, rc_a, %d, 10, 10, pb_b, 2m);\n  }\n", p.RateDelta)
+				case 2:
+					fmt.Fprintf(&b, "  if (req.restarts == 0) {\n    set var.lim = ratelimit.check_rates(req.http.X-Client, rc_b, 100000, 1, 10, rc_a, %d, 10, 10, pb_b, 2m);\n  }\n", p.RateDelta)
+				case 3:
+					fmt.Fprintf(&b, "  if (req.restarts == 0) {\n    set var.lim = ratelimit.check_rates(req.http.X-Client, rc_a, %d, 10, 10, rc_b, 1, 60, 70000000, pb_b, 2m);\n  }\n", p.RateDelta)
+				default:
+					fmt.Fprintf(&b, "  if (req.restarts == 0) {\n    set var.n = ratelimit.ratecounter_increment(rc_a, req.http.X-Client, %d);\n  }\n", p.RateDelta)
+				}
 				b.WriteString("  set req.http.X-Bucket = ratecounter.rc_a.bucket.60s;\n")
 			}
 			if p.Penalty {
@@ -405,6 +417,7 @@ func drawProgramL(c *worker.Ctx) *programL {
 	p.TTL = []time.Duration{10 * time.Second, 60 * time.Second, 3600 * time.Second}[c.T.Draw(3)]
 	if c.T.Bool(1, 3) {
 		p.RateDelta = 1 + c.T.Draw(5)
+		p.RateForm = c.T.Draw(4)
 	}
 	p.Penalty = c.T.Bool(1, 3)
 	p.HashVary = c.T.Bool(1, 3)
